@@ -348,7 +348,7 @@ func c16SealedHere(w *World, b *ssa.BasicBlock) bool {
 			}
 			return it.NumMethods() > 0
 		}
-		if (has(t) || has(types.NewPointer(t))) && !cases["."+tn.Name()] {
+		if (has(t) || has(types.NewPointer(t))) && !cases["."+tname(tn)] {
 			return false
 		}
 	}
